@@ -35,7 +35,7 @@ struct C01 : Driver {
     c.runs.push_back(compress_cfg(rng, level, seq, random_workers(rng), true));
     c.runs.push_back(decompress_cfg(rng, random_workers(rng), true, c.data.size() / 2 + 100, c.data.size()));
     if (rng.below(8) == 0) use_default_workers(c.runs[rng.below(2)]);      // no -n: one worker per (simulated) CPU
-    if (rng.below(8) == 0) c.runs[rng.below(2)].operand2 = true;            // the data as the second FILE operand of the invocation
+    if (rng.below(8) == 0) { int w = (int)rng.below(2); if (w == 0) as_second_operand(rng, c.runs[0], c.data.size(), true); else c.runs[1].operand2 = true; }   // the data as the second FILE operand of the invocation
     return c;
   }
   Verdict eval(const Case &c, Ctx &ctx) const override {
@@ -87,7 +87,7 @@ struct C03 : Driver {
       if (k == 0) { r.sched = sim::Sched(); r.sched.policy = sim::P_DEFAULT; r.in_kind = sim::K_FILE; }
       else if (rng.below(3) == 0) { r.argv.push_back("f"); }     // FILE operand: f -> f.bz2
       if (k != 0 && rng.below(10) == 0) use_default_workers(r);
-      if (k != 0 && r.argv.back() != "f" && rng.below(8) == 0) r.operand2 = true;     // as the second FILE operand: still the same bytes
+      if (k != 0 && r.argv.back() != "f" && rng.below(6) == 0) as_second_operand(rng, r, c.data.size(), true);     // as the second FILE operand (possibly still growing while read): still the same bytes
       c.runs.push_back(r);
     }
     return c;
